@@ -119,6 +119,15 @@ def gen_cases(ctx):
                 for restrict in ([wn[2], wn[10]], [wn[11], wn[3], wn[0]], [wn[10], wn[9], wn[1]], [wn[ncol - 1], wn[2]], [wn[10]]):
                     cases.append({"op": "read", "reader": reader, "table": wide, "restrict": restrict, "cast": {}, "ragged": False,
                                   "encoding": "utf-8", "sep": ",", "header": header})
+    # CSV cells in a non-canonical spelling of a number (leading zeros, exponent, trailing zeros) read with a str / float / int
+    # mapping, with and without a restriction: the mapped read is the cast of the plain read
+    for fam, texts in (("int", ["007", "00501", "10"]), ("float", ["2.50", "1e3", "0.5"])):
+        for reader in ("df_csv", "lod_csv"):
+            for ty in ("str", "float") + (("int",) if fam == "int" else ()):
+                for restrict in ([], ["code"], ["name", "code"]):
+                    tt = {"names": ["name", "code", "n"], "nrow": 3, "cols": {"name": ["a", "b", "c"], "code": list(texts), "n": [1, 2, 3]}, "textual": {"code": fam}}
+                    cases.append({"op": "read", "reader": reader, "table": tt, "restrict": restrict, "cast": {"code": ty}, "ragged": False,
+                                  "encoding": "utf-8", "sep": ",", "header": True})
     # Parquet files written by pandas carry pandas' own schema metadata (and, with a labelled index, the index as a column)
     for index in ("default", "labelled"):
         for restrict in (["temp"], ["temp", "hum"], []):
